@@ -73,9 +73,9 @@ func c07Enumerate(tier string, yield func(any)) {
 			yield(&c07Case{Kind: "ku", A: mask, B: cr})
 		}
 	}
-	sl := 3
+	sl := 4
 	if tier == "thorough" {
-		sl = 4
+		sl = 5
 	}
 	lists(len(c07SANItems), sl, func(l []int) { yield(&c07Case{Kind: "san", L: append([]int{}, l...)}) })
 	for ca := 0; ca < 3; ca++ {
@@ -231,7 +231,7 @@ func init() {
 	register(&engine.Check{
 		ID:          "C07",
 		Level:       "exploration",
-		Rule:        "keyUsage: all 128 flag subsets x critical 3 (written order varied); subjectAlternativeName: all lists of length 0..3 over {mail,dns,ip} x 2 values (259); basicConstraints: ca {omitted,false,true} x pathLen {omitted, 0..255, 256, 65535, 2^31} (780); certificatePolicies: 27 policy shapes (plain, cps, every userNotice combination of organization x numbers x text, two qualifiers), singles and all pairs; authorityInformationAccess: lists 0..3 (thorough 0..5) over 2 URIs; extendedKeyUsage: lists 0..3 (thorough 0..4) over 6 names + 2 OIDs; subjectAlternativeName lists up to 4 in thorough; authorityKeyIdentifier: hash (self-signed and under an issuer) and explicit ids of 1,20,32,127,128,768,769,1024 bytes x critical 3; subjectKeyIdentifier hash; ocspNoCheck. Each through a whole run; the emitted body must equal the reference DER encoding written from RFC 5280 / 6960 (DER is canonical, so byte equality = an independent decoder reading back exactly the configured value). non-trivial = distinct case",
+		Rule:        "keyUsage: all 128 flag subsets x critical 3 (written order varied); subjectAlternativeName: all lists of length 0..4 over {mail,dns,ip} x 2 values (1555; thorough 0..5); basicConstraints: ca {omitted,false,true} x pathLen {omitted, 0..255, 256, 65535, 2^31} (780); certificatePolicies: 27 policy shapes (plain, cps, every userNotice combination of organization x numbers x text, two qualifiers), singles and all pairs; authorityInformationAccess: lists 0..3 (thorough 0..5) over 2 URIs; extendedKeyUsage: lists 0..3 (thorough 0..4) over 6 names + 2 OIDs; subjectAlternativeName lists up to 4 (thorough 5); authorityKeyIdentifier: hash (self-signed and under an issuer) and explicit ids of 1,20,32,127,128,768,769,1024 bytes x critical 3; subjectKeyIdentifier hash; ocspNoCheck. Each through a whole run; the emitted body must equal the reference DER encoding written from RFC 5280 / 6960 (DER is canonical, so byte equality = an independent decoder reading back exactly the configured value). non-trivial = distinct case",
 		Bound:       map[string]string{"lists": "quick <=3, thorough SAN<=4 AIA<=5 EKU<=4", "pathLen": "0..255 + 3 large"},
 		Assumptions: []string{"a userNotice with neither organization, numbers nor text has no defined encoding and is excluded", "SAN ip octets outside 0..255 are outside the domain (C20 covers the error clause)"},
 		Budget:      budgets(quickBudget, thoroughBudget),
